@@ -507,10 +507,14 @@ func Pushed[T any](s *Src, m Mode) (ro.Observable[T], *Push[T]) {
 	return obs, p
 }
 
-// Attempts is a source whose n-th subscription plays the n-th script (the last one repeats).
+// Attempts is a source whose n-th subscription plays the n-th script (the last one repeats). It records
+// the destination of every subscription, so that MaxOpen counts attempts that are open at the same time
+// (an attempt that has terminated or been unsubscribed is closed even if its teardown is still pending).
 func Attempts[T any](s *Src, m Mode, scripts [][]Ev, async bool) ro.Observable[T] {
+	core := &pushCore{s: s}
 	return mk(m, func(ctx context.Context, d ro.Observer[T]) ro.Teardown {
 		s.onSub(ctx)
+		slot := core.add(ctx, d)
 		n, _, _, _ := s.Get()
 		n--
 		if n >= len(scripts) {
@@ -528,7 +532,10 @@ func Attempts[T any](s *Src, m Mode, scripts [][]Ev, async bool) ro.Observable[T
 		} else {
 			play()
 		}
-		return s.onTear
+		return func() {
+			core.drop(slot)
+			s.onTear()
+		}
 	})
 }
 
